@@ -2,6 +2,7 @@ package main
 
 import (
 	"fmt"
+	"go/ast"
 	"os"
 	"path/filepath"
 	"sort"
@@ -29,6 +30,7 @@ type Contract struct {
 	Requires       []*Clause
 	Ensures        []*Clause
 	Invariants     map[int][]*Clause
+	Iterations     map[int][]*Clause
 	Decreases      *Clause
 	Pure           bool
 	AssignsNothing bool
@@ -83,7 +85,7 @@ type TypeInv struct {
 	Clause   *Clause
 }
 
-var clauseKeywords = map[string]bool{"requires": true, "ensures": true, "invariant": true, "decreases": true, "property": true,
+var clauseKeywords = map[string]bool{"iteration": true, "requires": true, "ensures": true, "invariant": true, "decreases": true, "property": true,
 	"pure": true, "assigns": true, "trusted": true, "noinline": true, "inline": true, "func": true, "sweep": true, "immutable": true, "spec": true,
 	"axiom": true, "flagset": true, "safeonly": true, "immutable-family": true, "method-pre": true, "entry": true, "type-invariant": true, "elems-nonnil": true, "callback-parametric": true}
 
@@ -136,6 +138,13 @@ func (w *World) LoadContracts() error {
 	}
 	for k, c := range cs.ByKey {
 		fn := w.Funcs[k]
+		if fn == nil && strings.Contains(k, "@") {
+			// parent@name : the closure assigned to local variable <name> in function <parent>
+			parts := strings.SplitN(k, "@", 2)
+			if parent := w.Funcs[parts[0]]; parent != nil {
+				fn = closureNamed(parent, parts[1])
+			}
+		}
 		if fn == nil {
 			// a contract on a generic function applies to each of its instances
 			found := false
@@ -266,6 +275,29 @@ func (w *World) parseContractFile(cs *ContractSet, file string) error {
 			case "decreases":
 				cur.Decreases = c
 			}
+		case "iteration":
+			// iteration n: expr  -- holds at the end of every iteration of loop n; old()/emitted() refer to the
+			// state at the beginning of that iteration
+			if cur == nil {
+				return fmt.Errorf("%s:%d: iteration outside func", file, rl.line)
+			}
+			k := strings.Index(rest, ":")
+			if k < 0 {
+				return fmt.Errorf("%s:%d: iteration needs 'n: expr'", file, rl.line)
+			}
+			n, err := strconv.Atoi(strings.TrimSpace(rest[:k]))
+			if err != nil {
+				return fmt.Errorf("%s:%d: bad loop ordinal", file, rl.line)
+			}
+			c, err := mk("iteration", strings.TrimSpace(rest[k+1:]))
+			if err != nil {
+				return err
+			}
+			c.Loop = n
+			if cur.Iterations == nil {
+				cur.Iterations = map[int][]*Clause{}
+			}
+			cur.Iterations[n] = append(cur.Iterations[n], c)
 		case "invariant":
 			if cur == nil {
 				return fmt.Errorf("%s:%d: invariant outside func", file, rl.line)
@@ -442,4 +474,35 @@ func parseSpecFunc(s string) (*SpecFunc, error) {
 		sf.Ret = rest
 	}
 	return sf, nil
+}
+
+func closureNamed(parent *ssa.Function, name string) *ssa.Function {
+	for _, b := range parent.Blocks {
+		for _, ins := range b.Instrs {
+			dr, ok := ins.(*ssa.DebugRef)
+			if !ok {
+				continue
+			}
+			id, ok := dr.Expr.(*ast.Ident)
+			if !ok || id.Name != name {
+				continue
+			}
+			switch x := dr.X.(type) {
+			case *ssa.MakeClosure:
+				return x.Fn.(*ssa.Function)
+			case *ssa.Function:
+				return x
+			case *ssa.Alloc:
+				// captured function variable: look at what is stored into the cell
+				for _, r := range *x.Referrers() {
+					if st, ok := r.(*ssa.Store); ok && st.Addr == ssa.Value(x) {
+						if mc, ok := st.Val.(*ssa.MakeClosure); ok {
+							return mc.Fn.(*ssa.Function)
+						}
+					}
+				}
+			}
+		}
+	}
+	return nil
 }
